@@ -362,7 +362,7 @@ def run(res, tier, seed):
     for c, err, rc in crashes:
         res.violation("matcher process died (rc=%s) on pattern %s: %s" % (rc, c["text"], err), [c])
     evs = [dict({"e": "Match", "doc": e["doc"], "text": e["text"], "pat": e["expr"]},
-                **{k: e[k] for k in ("matched", "error") if k in e}) for e in events]
+                **{k: e[k] for k in ("matched", "error", "targets") if k in e}) for e in events]
     res.cov["evaluations"] = len(evs)
     dpath = os.path.join(wd, "docs.ndjson")
     vlib.write_ndjson(dpath, flats)
